@@ -42,6 +42,10 @@ def cases(tier, seed):
     names = progs.names() + ['twin']
     for name in progs.names():
         out.append({'k': 'conform', 'prog': name})
+    for when in (-1, 0, 1, 3):
+        for where in ('loop', 'inner'):
+            for how in ('forwarded', 'installed'):
+                out.append({'k': 'late', 'when': when, 'where': where, 'how': how})
     for name in names:
         cand = candidates(name)
         for i, c in enumerate(cand):
@@ -159,7 +163,59 @@ def conform(ctx, desc):
                                                            f'results {seqs[0][1:]} vs {seqs[1][1:]}', desc)
 
 
+LATE_SRC = '''
+def inner(n):
+    m = n + 1
+    return m
+def loop(hook):
+    total = 0
+    for i in range(4):
+        hook(i)
+        total += inner(i)
+    return total
+def main(hook):
+    hook(-1)
+    return loop(hook)
+'''
+
+
+def late_config(ctx, desc):
+    """The configuration arrives while the program is running (that is how it always arrives: a poll task applies it)."""
+    from deep.api.tracepoint.trigger import build_trigger
+    ns, path = rig.load_program('c03late', LATE_SRC)
+    lines = LATE_SRC.split('\n')
+    at_loop = lines.index('        total += inner(i)') + 1
+    at_inner = lines.index('    m = n + 1') + 1
+    when, where, how = desc['when'], desc['where'], desc['how']
+    agent = rig.Agent()
+    line = at_loop if where == 'loop' else at_inner
+    trig = build_trigger('t', 'c03late.py', line, {'fire_count': '-1', 'fire_period': '0', 'frame_type': 'no_frame'}, [], [])
+
+    def hook(i):
+        if i == when:
+            agent.install([trig])
+    with rig.VirtualClock():
+        if how == 'installed':
+            from ..drive import run_installed
+            run = run_installed(agent.handler, ns['main'], hook)
+        else:
+            run = Forwarder({path}, agent.handler).call(ns['main'], hook)
+    ctx.case()
+    ctx.nt(('late', when, where, how))
+    expected = 4 if when == -1 else 4 - when     # the line is reached once per iteration i >= when
+    got = len(agent.snapshots)
+    ctx.outcome(('late', when, where, got))
+    if run.escaped or run.exc is not None or run.result != 10:
+        ctx.violation('C03/late-config/program-disturbed', f'{desc}: result {run.result} exc {run.exc!r} escaped {run.escaped[:1]}', desc)
+    elif got != expected:
+        frame = 'frame-entered-before-config' if (where == 'loop' and when >= 0) else 'frame-entered-after-config'
+        ctx.violation(f'C03/late-config/missed/{frame}', f'configuration installed at iteration {when}, tracepoint on the {where} line ({how}): the line was reached '
+                                                         f'{expected} times afterwards, the tracepoint acted {got} times', desc)
+
+
 def run_case(ctx, desc):
+    if desc.get('k') == 'late':
+        return late_config(ctx, desc)
     if desc.get('prog', '').startswith('g') and desc['prog'][1:].isdigit():
         progs.generated()
     if desc.get('k') == 'conform':
